@@ -4,7 +4,8 @@
 (*                                                                         *)
 (* Sources: F the field's own converter; G handlers passed to the call;    *)
 (* C those of the nearest enclosing dataclass (its own, or - inh = "T" -   *)
-(* inherited from its base class); E those of a dataclass further out;     *)
+(* inherited from its base class; inh = "X": the base has them and the     *)
+(* class itself passes an empty custom=(), which overrides them); E those of a dataclass further out;     *)
 (* P the type's own converter protocol; R a registered global handler;     *)
 (* B the built-in converters.  A configuration says which sources are      *)
 (* present, which of them answer NotImplemented (defer), in which form     *)
@@ -26,16 +27,17 @@ Forms   == {"callable", "seq", "map"}
 VARIABLES cfg
 Configs ==
   { c \in [present : SUBSET Sources, defer : SUBSET {"G", "C", "E", "R"}, form : Forms, target : Targets,
-           shape : Shapes, dir : {"from", "into"}, inh : {"T", "F"}] :
+           shape : Shapes, dir : {"from", "into"}, inh : {"T", "F", "X"}] :
       /\ c.defer \subseteq c.present
       /\ ("F" \in c.present => c.shape = "field")
-      /\ (c.inh = "T" => "C" \in c.present)
+      /\ (c.inh \in {"T", "X"} => "C" \in c.present)
       /\ (c.form = "map" => c.defer \subseteq {"R"})      \* a mapping cannot answer NotImplemented
       /\ ~(c.target = "param" /\ c.shape = "list") }      \* (List[List[int]]: the handlers keyed on list would answer for the outer list)
 
 (* does the handler of source s answer for the type being resolved *)
 Answers(c, s) ==
   /\ s \in c.present /\ s \notin c.defer
+  /\ ~(s = "C" /\ c.inh = "X")         \* the subclass switched its base's handlers off with an explicit empty custom=()
   /\ (s \in {"G", "C", "E"} /\ c.form = "map" /\ c.target = "param") => FALSE   \* {list: conv} is not asked for List[int]
 Order == <<"F", "G", "C", "E">>
 FirstLocal(c) == LET S == {i \in DOMAIN Order : Answers(c, Order[i])} IN
